@@ -14,6 +14,7 @@ import (
 	"github.com/kelindar/bitmap"
 	"github.com/kelindar/column/commit"
 	"github.com/kelindar/intmap"
+	"github.com/kelindar/iostream"
 	"github.com/kelindar/smutex"
 	"github.com/klauspost/compress/s2"
 	"github.com/tidwall/btree"
@@ -624,17 +625,30 @@ func vModelBTreeScan(t *btree.BTreeG[sortIndexItem], iter func(item sortIndexIte
 	}
 }
 
-// columns.Load (an atomic.Value holding the registry): some column, or none. For Ascend the entry is a sorted index.
-//
+// columns.Load (an atomic.Value holding the registry): some column, or none. vLoadSortIndex (ghost, set by a lemma)
+// says the entry is a sorted index (what Ascend expects of the name it is given).
+var (
+	vLoadSortIndex bool
+	vLoadCalls     int
+	vLoadName      string
+	vLoadResult    *column
+)
+
 //@ model column.(*columns).Load
 func vModelColumnsLoad(c *columns, name string) (*column, bool) {
+	vLoadCalls++
+	vLoadName = name
 	if vNondet[bool]() {
+		vLoadResult = nil
 		return nil, false
 	}
 	col := vNondet[*column]()
 	vAssume(col != nil)
-	si, ok := col.Column.(*columnSortIndex)
-	vAssume(ok && si != nil && si.btree != nil)
+	if vLoadSortIndex {
+		si, ok := col.Column.(*columnSortIndex)
+		vAssume(ok && si != nil && si.btree != nil)
+	}
+	vLoadResult = col
 	return col, true
 }
 
@@ -694,4 +708,91 @@ func vModelLoadWithIndex(c *columns, columnName string) ([]*column, bool) {
 	cols := vNondet[[]*column]()
 	vAssume(len(cols) <= 3 && vForall(0, len(cols), func(i int) bool { return cols[i] != nil }))
 	return cols, true
+}
+
+// iostream.Writer as a ghost token log with failure injection: every write either appends a token (kind 1 = uvarint,
+// 2 = range header, 3 = a buffer written by itself) or fails with vWErr; vWFailed records that some write failed.
+var (
+	vWN     int
+	vWKind  [8]uint8
+	vWVal   [8]uint64
+	vWFailed bool
+	vWErr   error
+	vWBlock int // the block WriteRange's delegate ran for
+)
+
+func vWToken(kind uint8, val uint64) error {
+	if vNondet[bool]() {
+		vWFailed = true
+		return vWErr
+	}
+	vAssume(vWN < 8)
+	vWKind[vWN], vWVal[vWN] = kind, val
+	vWN++
+	return nil
+}
+
+//@ model iostream.NewWriter
+func vModelNewWriter(out io.Writer) *iostream.Writer {
+	w := vNondet[*iostream.Writer]()
+	vAssume(w != nil)
+	return w
+}
+
+//@ model iostream.(*Writer).WriteUvarint
+func vModelWriteUvarint(w *iostream.Writer, x uint64) error { return vWToken(1, x) }
+
+//@ model iostream.(*Writer).Offset
+func vModelWriterOffset(w *iostream.Writer) int64 { return vNondet[int64]() }
+
+//@ model iostream.(*Writer).Flush
+func vModelWriterFlush(w *iostream.Writer) error {
+	if vNondet[bool]() {
+		vWFailed = true
+		return vWErr
+	}
+	return nil
+}
+
+//@ model iostream.(*Writer).WriteRange
+func vModelWriteRange(w *iostream.Writer, length int, fn func(i int, w *iostream.Writer) error) error {
+	if err := vWToken(2, uint64(length)); err != nil {
+		return err
+	}
+	i := vNondet[int]()
+	if 0 <= i && i < length {
+		vWBlock = i
+		return fn(i, w)
+	}
+	return nil
+}
+
+// WriteSelf: the value of the token is 1 for the row buffer, 0 for a column's buffer (the bytes are the subject of C05)
+//
+//@ model iostream.(*Writer).WriteSelf
+func vModelWriteSelf(w *iostream.Writer, v io.WriterTo) error {
+	b, ok := v.(*commit.Buffer)
+	vAssert("model:writeself-of-a-buffer", ok && b != nil)
+	isRows := uint64(0)
+	if b.Column == rowColumn {
+		isRows = 1
+	}
+	return vWToken(3, isRows)
+}
+
+// columns.Count / RangeUntil (registry in an atomic.Value): the number of non-index columns; the delegate runs for
+// one arbitrary registered column and its error is returned.
+var vColsCount int
+
+//@ model column.(*columns).Count
+func vModelColumnsCount(c *columns) int {
+	vAssume(0 <= vColsCount && vColsCount < 1<<20)
+	return vColsCount
+}
+
+//@ model column.(*columns).RangeUntil
+func vModelColumnsRangeUntil(c *columns, fn func(column *column) error) error {
+	col := vNondet[*column]()
+	vAssume(col != nil)
+	return fn(col)
 }
